@@ -116,3 +116,48 @@ Definition mismatches (cs : list case) : list (N * N) := mismatches_from 0 cs.
 
 Definition count_in_domain (cs : list case) : N :=
   N.of_nat (length (filter (fun c => in_domain (lk c) (c_bytes c)) cs)).
+
+(* ---- sessions (Session.v): the harness records, after every step, the outcome, the bytes on disk and
+   f.newlines of the caller's File object; the whole trace is recomputed here ------------------------------- *)
+From RopeVerif.C16 Require Import Session.
+
+Record scase := {
+  sc_bytes : list N;
+  sc_tbls : list (text * list N);
+  sc_unknown : list text;
+  sc_soa : bool;                               (* automatic_soa on and a Python file *)
+  sc_steps : list step;
+  sc_obs : list (N * list N * N)               (* impl: outcome, bytes on disk, f.newlines (3 = None) *)
+}.
+
+Definition slk (c : scase) (name : text) : option codec :=
+  if existsb (fun x => 128 <=? x) name then None
+  else match std_id name with
+       | Some i => Some (codec_of_id i)
+       | None => match assoc_text name (sc_tbls c) with Some tbl => Some (charmap tbl) | None => None end
+       end.
+
+(* first step whose observation differs: 10 * (index + 1) + (1 outcome | 2 bytes | 3 f.newlines); 5 lengths *)
+Fixpoint cmp_trace (k : N) (m i : list (N * list N * N)) : N :=
+  match m, i with
+  | [], [] => 0
+  | (o, d, n) :: m', (o', d', n') :: i' =>
+      if negb (N.eqb o o') then 10 * k + 1
+      else if negb (text_eqb d d') then 10 * k + 2
+      else if negb (N.eqb n n') then 10 * k + 3
+      else cmp_trace (N.succ k) m' i'
+  | _, _ => 5
+  end.
+
+Definition run_scase (c : scase) : N :=
+  if negb (forallb (fun kv => charmap_table_ok (snd kv)) (sc_tbls c)) then 9
+  else cmp_trace 1 (trace repaired (slk c) (sc_soa c) (initial (sc_bytes c)) (sc_steps c)) (sc_obs c).
+
+Fixpoint smismatches_from (i : N) (cs : list scase) : list (N * N) :=
+  match cs with
+  | [] => []
+  | c :: r =>
+      let code := run_scase c in
+      if N.eqb code 0 then smismatches_from (N.succ i) r else (i, code) :: smismatches_from (N.succ i) r
+  end.
+Definition smismatches (cs : list scase) : list (N * N) := smismatches_from 0 cs.
